@@ -9,6 +9,7 @@ exactly the shape of the spec's `exp` (after `norm`):
   Tick    args {d}           obs {tbls, bufs}
   Cut / Restore args {s, p}  obs {x: 0}
   Detect  args {x}           obs {tbls, adj: [[s1,p1,s2,p2]], bufs}
+  DetectBusy args {h, d}     obs {again, lost, tbls, adj, bufs}   (21 s with a conversation going on, see the spec)
 
 pattern = {inp, src, dst, shs, out, ito, hto}: a flow-table entry read through OFPST_FLOW on the wire,
 abstracted by an independent OpenFlow 1.0 matcher (covers_shape of adapters_c11): wildcard = 0, host
@@ -235,6 +236,37 @@ class World(object):
       r = dict(tbls=self.tables(), adj=both, bufs=self.bufs())
       if half:
         r["anomaly"] = ["half-links"]
+      return norm(r)
+    if a == "DetectBusy":
+      h, d = args["h"], args["d"]
+      frs = [(h, d, self.frame(h, d, "a")), (d, h, self.frame(d, h, "b"))]
+      pktins, lost, anomalies = 0, 0, []
+      for k in range(10):                      # a frame every 2 s; the first two only make sure the flows exist
+        self.net.advance(2)
+        src, dst, fr = frs[k % 2]
+        s, p = self.at[src]
+        try:
+          hops = self.net.inject(s, p, fr)
+        except xn.Diverged:
+          return {"DIVERGED": 1}
+        n = 0
+        for hp in hops:
+          n += sum(1 for m in hp["s2c"][hp["s"]] if m["type"] == rb.PACKET_IN)
+          if hp["extra"] or hp["foreign"]:
+            anomalies.append("other-frame-emitted")
+        if k >= 2:
+          pktins += n
+        ts, tp = self.at[dst]
+        if not any(hp["s"] == ts and tp in hp["out"] for hp in hops):
+          lost += 1
+      self.net.advance(1)
+      self.net.sweep()
+      both, half = self.net.disc_adjacency()
+      r = dict(again=1 if 1 <= pktins <= 2 else 100 + pktins, lost=lost, tbls=self.tables(), adj=both, bufs=self.bufs())
+      if half:
+        anomalies.append("half-links")
+      if anomalies:
+        r["anomaly"] = sorted(set(anomalies))
       return norm(r)
     if a == "Send":
       s, p = self.at[args["h"]]
